@@ -2583,13 +2583,15 @@ namespace igris
         static_string(const char *dat)
         {
             m_size = strlen(dat);
+            if (m_size > N)
+                m_size = N;
             memcpy(_data, dat, m_size);
         }
 
         static_string(const char *dat, size_t sz)
         {
-            m_size = sz;
-            memcpy(_data, dat, sz);
+            m_size = sz > N ? N : sz;
+            memcpy(_data, dat, m_size);
         }
 
         char *data()
